@@ -229,7 +229,7 @@ func runDriverSharded(caseLines [][]string, shards int) ([][]string, error) {
 
 func firstBad(replies []string) (int, string) {
 	for i, r := range replies {
-		if r != "ok" {
+		if r != "ok" && !strings.HasPrefix(r, "SKIP") {
 			k := "MODEL"
 			if strings.HasPrefix(r, "SPEC") {
 				k = "SPEC"
@@ -251,7 +251,7 @@ func failsKind(ex Executor, ops []Op, kind string) (bool, []string, int, string)
 	}
 	out = out[1:]
 	for i, r := range out {
-		if r == "ok" {
+		if r == "ok" || strings.HasPrefix(r, "SKIP") {
 			continue
 		}
 		isSpec := strings.HasPrefix(r, "SPEC") || strings.Contains(r, " SPEC ")
